@@ -551,3 +551,15 @@ func (c *Check) Deadline(def time.Duration) time.Time {
 
 	return c.start.Add(def)
 }
+
+// Uniq returns the distinct strings of a sorted slice.
+func Uniq(sorted []string) []string {
+	var out []string
+	for i, s := range sorted {
+		if i == 0 || s != sorted[i-1] {
+			out = append(out, s)
+		}
+	}
+
+	return out
+}
